@@ -201,9 +201,16 @@ class LiteralConverter(Converter[T_co]):
 
     vals: t.Sequence[T_co]
 
+    def _is_literal(self, val: t.Any) -> bool:
+        # `Literal[1]` is the int 1: not `1.0`, not `True` (== alone would take them)
+        return any(
+            (type(v) is type(val) or (isinstance(val, type(v)) and not isinstance(val, bool))) and v == val
+            for v in self.vals
+        )
+
     def try_convert(self, val: t.Any) -> T_co:
         """See [`Converter.try_convert`][pane.converters.Converter.try_convert]"""
-        if val in self.vals:
+        if self._is_literal(val):
             return val
         raise ParseInterrupt()
 
@@ -214,7 +221,7 @@ class LiteralConverter(Converter[T_co]):
 
     def collect_errors(self, val: t.Any) -> t.Optional[WrongTypeError]:
         """See [`Converter.collect_errors`][pane.converters.Converter.collect_errors]"""
-        if val in self.vals:
+        if self._is_literal(val):
             return None
         return WrongTypeError(self.expected(), val)
 
